@@ -125,6 +125,10 @@ class Run:
 
     # ---------------------------------------------------------------- cbmc
     def _spawn(self, cmd, env=None):
+        if env is None:
+            # CBMC writes the CNF for an external SAT solver to a temporary file and a killed (losing) back end leaves it behind:
+            # keep those files inside the run's scratch directory, which is removed when the run ends
+            env = dict(os.environ, TMPDIR=self.tmp)
         p = subprocess.Popen(cmd, stdout=subprocess.PIPE, stderr=subprocess.DEVNULL, text=True,
                              preexec_fn=os.setsid, env=env)
         self.procs.add(p); return p
